@@ -454,6 +454,7 @@ def parseNodeReq? : List String → Option DocNode.Req
   | ["status", ns] => do pure (.status (← Bytes.ofHex ns))
   | ["drop", ns] => do pure (.dropDoc (← Bytes.ofHex ns))
   | ["set", tok] => do let e ← parseEntry? tok; pure (.setHash e.ns e)
+  | ["insert", tok] => do let e ← parseEntry? tok; pure (.insertDoc e.ns e)
   | ["getexact", ns, au, key, incl] => do
     pure (.getExact (← Bytes.ofHex ns) (← Bytes.ofHex au) (← Bytes.ofHex key) (← parseBool? incl))
   | "getmany" :: ns :: q => do pure (.getMany (← Bytes.ofHex ns) (← parseQuery? q))
@@ -495,6 +496,7 @@ def showNodeReply (quiet : Bool) : DocNode.Reply → String
   | .ticket kind raw => "ticket " ++ toString kind ++ " " ++ raw.toHex
   | .subscribed id => "subscribed " ++ toString id
   | .errAuthorNotFound => "err:author-not-found"
+  | .errEntryIsEmpty => "err:entry-is-empty"
   | .errDefaultAuthor => "err:default-author"
   | .errNoDocument => "err:no-document"
 
@@ -506,8 +508,8 @@ def stepNode (w : World) : List String → Option (World × String)
     pure ({ w with nodes := (sid, DocNode.init (← Bytes.ofHex a) (← Bytes.ofHex raw)) :: w.nodes.filter (·.1 != sid) }, "ok")
   | "node" :: sid :: rest => do
     let sid ← parseNat? sid
-    let quiet := rest.head? == some "setq"
-    let rest := match rest with | "setq" :: r => "set" :: r | r => r
+    let quiet := rest.head? == some "setq" || rest.head? == some "insertq"
+    let rest := match rest with | "setq" :: r => "set" :: r | "insertq" :: r => "insert" :: r | r => r
     let req ← parseNodeReq? rest
     match w.nodes.lookup sid with
     | none => pure (w, "no-store")
@@ -516,6 +518,8 @@ def stepNode (w : World) : List String → Option (World × String)
       -- a write refused before it reaches the replica announces nothing either
       let shown := match req, out with
         | .setHash _ _, .errAuthorNotFound => "err:author-not-found events="
+        | .insertDoc _ _, .errAuthorNotFound => "err:author-not-found events="
+        | .insertDoc _ _, .errEntryIsEmpty => "err:entry-is-empty events="
         | _, out => showNodeReply quiet out
       pure ({ w with nodes := (sid, st') :: w.nodes.filter (·.1 != sid) }, shown)
   -- history for the specification: an acknowledged write / policy / registration / (re-)creation / removal
@@ -1066,6 +1070,24 @@ def step (w : World) (line : String) : World × String :=
   | ["cencmsg", tok] =>
     match WireTok.parseMsg? tok with
     | some m => (w, "ok " ++ (Codec.encMsg m).toHex)
+    | none => (w, "bad-op")
+  -- `Capability::merge`: `capmerge <ns> <kind> <raw> <ns'> <kind'> <raw'>`
+  | ["capmerge", ns, k, raw, ns2, k2, raw2] =>
+    match Bytes.ofHex ns, parseNat? k, Bytes.ofHex raw, Bytes.ofHex ns2, parseNat? k2, Bytes.ofHex raw2 with
+    | some ns, some k, some raw, some ns2, some k2, some raw2 =>
+      (w, match Tables.capMerge (ns, k, raw) (ns2, k2, raw2) with
+        | none => "err:namespace-mismatch"
+        | some (changed, res) => "ok " ++ showBool changed ++ " " ++ res.1.toHex ++ " " ++ toString res.2.1 ++ " " ++ res.2.2.toHex)
+    | _, _, _, _, _, _ => (w, "bad-op")
+  -- a gossip message as `receive_loop` decodes it (`postcard::from_bytes::<Op>`), re-encoded
+  | ["gdecode", hx] =>
+    match Bytes.ofHex hx with
+    | some b =>
+      (w, match Codec.decGOp b with
+        | some o =>
+          let tag := match o with | .put _ => 0 | .contentReady _ => 1 | .syncReport _ _ => 2
+          "ok " ++ toString tag ++ " " ++ (Codec.encGOp o).toHex
+        | none => "err")
     | none => (w, "bad-op")
   | ["cdecmsg", hx] =>
     match Bytes.ofHex hx with
